@@ -76,8 +76,34 @@ class Run:
         return p
 
     # ---- trace validation ------------------------------------------------------------------------
+    CHUNK = 50000        # trace lines per TLC run (the whole file is deserialised into TLC values: memory, not time, is the limit)
     def validate(self, fam_or_module, trace_paths, timeout=1800, heap="8g", env=None, workers=None):
-        """concatenate the traces, let TLC validate every line; returns list of (event, labels)"""
+        """concatenate the traces, let TLC validate every line; returns list of (event, labels).  Long traces are validated in chunks."""
+        total = 0
+        for tp in trace_paths:
+            with open(tp) as f: total += sum(1 for line in f if line.strip())
+        if total > self.CHUNK:
+            chunks, cur, n = [], None, 0
+            base = os.path.join(vlib.scratch(), "chunk_%d_" % len(self.mc_runs))
+            for tp in trace_paths:
+                with open(tp) as f:
+                    for line in f:
+                        if not line.strip(): continue
+                        if cur is None or n >= self.CHUNK:
+                            if cur: cur.close()
+                            chunks.append(base + "%d.ndjson" % len(chunks)); cur = open(chunks[-1], "w"); n = 0
+                        cur.write(line if line.endswith("\n") else line + "\n"); n += 1
+            if cur: cur.close()
+            res = []
+            ntr = self.traces
+            for c in chunks:
+                res += self._validate_one(fam_or_module, [c], timeout, heap, env, workers)
+                os.remove(c)
+            self.traces = ntr + len(trace_paths)
+            return res
+        return self._validate_one(fam_or_module, trace_paths, timeout, heap, env, workers)
+
+    def _validate_one(self, fam_or_module, trace_paths, timeout=1800, heap="8g", env=None, workers=None):
         module = fam_or_module.trace_module if isinstance(fam_or_module, Family) else fam_or_module
         allp = os.path.join(vlib.scratch(), "trace_%d.ndjson" % (len(self.mc_runs)))
         n = 0
